@@ -419,6 +419,17 @@ pub fn run_once(p: &SeqParams, hist: &[usize]) -> StepReport {
 }
 
 fn judge_divergence(ex: &mut Exec, mut rep: StepReport, d: String, finish: impl Fn(&Exec, &mut StepReport)) -> StepReport {
+    // listed C10 finding: rebalancing cannot place a divider in a parent page that lacks the room; the statement fails
+    // with this storage error and the tree is left half-rebalanced, so the history is not judged further
+    let divider = "KT-divider-does-not-fit-parent";
+    if d.contains("Attempted to insert with overflow on a btreepage") && ex.model.enabled_hazards.contains(divider) {
+        rep.status = "known".into();
+        rep.findings = vec![divider.to_string()];
+        rep.detail = format!("{d}\n{}", ex.log.join("\n"));
+        rep.stop = true;
+        finish(ex, &mut rep);
+        return rep;
+    }
     rep.status = "violation".into();
     rep.detail = format!("{d}\n{}", ex.log.join("\n"));
     rep.stop = true;
